@@ -10,6 +10,7 @@ import (
 	"math"
 	"os"
 	"path/filepath"
+	"runtime"
 	"sort"
 	"strconv"
 	"strings"
@@ -910,8 +911,10 @@ func TestC14CLI(t *testing.T) {
 		}()
 		select {
 		case <-done:
-		case <-time.After(30 * time.Second):
-			o.Fail("cli-hung", fmt.Sprintf("f1 %s did not return within 30s", strings.Join(args, " ")))
+		case <-time.After(60 * time.Second):
+			buf := make([]byte, 1<<20)
+			buf = buf[:runtime.Stack(buf, true)]
+			o.Fail("cli-hung", fmt.Sprintf("f1 %s did not return within 60s; goroutines:\n%s", strings.Join(args, " "), string(buf[:min(len(buf), 6000)])))
 			continue
 		}
 		switch {
